@@ -69,15 +69,20 @@ func streamFromBucket(bucket, streamInBucket int) int {
 func (s *IDGenerator) GetStream() (int, bool) {
 	// based closely on the java-driver stream ID generator
 	// avoid false sharing subsequent requests.
+	verifYield(1)
 	offset := atomic.LoadUint32(&s.offset)
+	verifYield(2)
 	for !atomic.CompareAndSwapUint32(&s.offset, offset, (offset+1)%s.numBuckets) {
+		verifYield(3)
 		offset = atomic.LoadUint32(&s.offset)
+		verifYield(2)
 	}
 	offset = (offset + 1) % s.numBuckets
 
 	for i := uint32(0); i < s.numBuckets; i++ {
 		pos := int((i + offset) % s.numBuckets)
 
+		verifYield(4)
 		bucket := atomic.LoadUint64(&s.streams[pos])
 		if bucket == math.MaxUint64 {
 			// all streams in use
@@ -87,10 +92,13 @@ func (s *IDGenerator) GetStream() (int, bool) {
 		for j := 0; j < bucketBits; j++ {
 			mask := uint64(1 << streamOffset(j))
 			for bucket&mask == 0 {
+				verifYield(5)
 				if atomic.CompareAndSwapUint64(&s.streams[pos], bucket, bucket|mask) {
+					verifYield(6)
 					atomic.AddInt32(&s.inuseStreams, 1)
 					return streamFromBucket(int(pos), j), true
 				}
+				verifYield(7)
 				bucket = atomic.LoadUint64(&s.streams[pos])
 			}
 		}
@@ -134,6 +142,7 @@ func (s *IDGenerator) String() string {
 
 func (s *IDGenerator) Clear(stream int) (inuse bool) {
 	offset := bucketOffset(stream)
+	verifYield(8)
 	bucket := atomic.LoadUint64(&s.streams[offset])
 
 	mask := uint64(1) << streamOffset(stream)
@@ -142,8 +151,11 @@ func (s *IDGenerator) Clear(stream int) (inuse bool) {
 		return false
 	}
 
+	verifYield(9)
 	for !atomic.CompareAndSwapUint64(&s.streams[offset], bucket, bucket & ^mask) {
+		verifYield(10)
 		bucket = atomic.LoadUint64(&s.streams[offset])
+		verifYield(9)
 		if bucket&mask != mask {
 			// already cleared
 			return false
@@ -151,6 +163,7 @@ func (s *IDGenerator) Clear(stream int) (inuse bool) {
 	}
 
 	// TODO: make this account for 0 stream being reserved
+	verifYield(11)
 	if atomic.AddInt32(&s.inuseStreams, -1) < 0 {
 		// TODO(zariel): remove this
 		panic("negative streams inuse")
